@@ -148,18 +148,31 @@ fn echo_model(defs: &Defs, type_ref: &str) -> String {
   )
 }
 
-/// Model whose decision `O` has a typed output variable and a literal value as logic.
-fn output_model(defs: &Defs, type_ref: Option<&str>, value: &str) -> String {
-  format!(
-    r##"{}{}<decision name="O" id="_o"><variable name="O"{}/><literalExpression><text>{}</text></literalExpression></decision></definitions>"##,
-    HEAD,
-    defs_xml(defs),
-    match type_ref {
-      Some(t) => format!(" typeRef=\"{}\"", t),
-      None => String::new(),
-    },
-    xml_escape(value)
-  )
+/// Model whose invocable `O` — a decision, a knowledge model, a decision service with one output decision or with
+/// two (`P` carrying the value, `Q` = 1; the typed result is the context of both) — has a typed output variable
+/// and a literal value as logic.
+fn output_model(defs: &Defs, type_ref: Option<&str>, value: &str, kind: &str) -> String {
+  let ty = match type_ref {
+    Some(t) => format!(" typeRef=\"{}\"", t),
+    None => String::new(),
+  };
+  let v = xml_escape(value);
+  let body = match kind {
+    "bkm" => format!(
+      r##"<businessKnowledgeModel name="O" id="_o"><variable name="O"{}/><encapsulatedLogic><literalExpression><text>{}</text></literalExpression></encapsulatedLogic></businessKnowledgeModel>"##,
+      ty, v
+    ),
+    "service" => format!(
+      r##"<decision name="P" id="_p"><variable name="P"/><literalExpression><text>{}</text></literalExpression></decision><decisionService name="O" id="_o"><variable name="O"{}/><outputDecision href="#_p"/></decisionService>"##,
+      v, ty
+    ),
+    "service2" => format!(
+      r##"<decision name="P" id="_p"><variable name="P"/><literalExpression><text>{}</text></literalExpression></decision><decision name="Q" id="_q"><variable name="Q"/><literalExpression><text>1</text></literalExpression></decision><decisionService name="O" id="_o"><variable name="O"{}/><outputDecision href="#_p"/><outputDecision href="#_q"/></decisionService>"##,
+      v, ty
+    ),
+    _ => format!(r##"<decision name="O" id="_o"><variable name="O"{}/><literalExpression><text>{}</text></literalExpression></decision>"##, ty, v),
+  };
+  format!("{}{}{}</definitions>", HEAD, defs_xml(defs), body)
 }
 
 /// The value kinds of the matrix (FEEL text).
@@ -458,8 +471,8 @@ pub fn run(cfg: &Cfg) -> Report {
   // ---- output coercion
   let mut out_cases: Vec<Case> = vec![];
   {
-    let mut run_out = |defs: &Defs, type_ref: Option<&str>, vartype: Sexp, value: &str, out_cases: &mut Vec<Case>, rep: &mut Report| {
-      let xml = output_model(defs, type_ref, value);
+    let mut run_out_kind = |kind: &'static str, defs: &Defs, type_ref: Option<&str>, vartype: Sexp, value: &str, out_cases: &mut Vec<Case>, rep: &mut Report| {
+      let xml = output_model(defs, type_ref, value, kind);
       let r = guarded(|| match dmntk_model::parse(&xml) {
         Ok(d) => match ModelEvaluator::new(&d) {
           Ok(me) => Ok(me.evaluate_invocable("O", &FeelContext::default())),
@@ -467,11 +480,13 @@ pub fn run(cfg: &Cfg) -> Report {
         },
         Err(e) => Err(e.to_string()),
       });
-      let val = eval(value);
+      // what the declared type is applied to
+      let val = if kind == "service2" { eval(&format!("{{P: {}, Q: 1}}", value)) } else { eval(value) };
       let vs = match value_sexp(&val) {
         Some(s) => s,
         None => return,
       };
+      rep.hit(&format!("output-of:{}", kind));
       let obs = match r {
         Ok(Ok(v)) => value_sexp(&v).map(|s| s.to_string()).unwrap_or_else(|| format!("(unsupported {})", v)),
         Ok(Err(e)) => {
@@ -481,7 +496,14 @@ pub fn run(cfg: &Cfg) -> Report {
         Err(p) => format!("(panic {})", p.replace(' ', "_")),
       };
       let req = Sexp::list(vec![Sexp::atom("c11"), Sexp::atom("output"), defs_sexp(defs), vartype, vs]).to_string();
-      out_cases.push(Case { family: "output", req, xml, value: value.to_string(), obs });
+      let typed_value = if kind == "service2" { format!("{{P: {}, Q: 1}}", value) } else { value.to_string() };
+      out_cases.push(Case { family: "output", req, xml, value: typed_value, obs });
+    };
+    let mut run_out = |defs: &Defs, type_ref: Option<&str>, vartype: Sexp, value: &str, out_cases: &mut Vec<Case>, rep: &mut Report| {
+      // the same typed variable on a decision, a knowledge model and a decision service
+      for kind in ["decision", "bkm", "service"] {
+        run_out_kind(kind, defs, type_ref, vartype.clone(), value, out_cases, rep);
+      }
     };
     for t in 0..8usize {
       let l = lits(t);
@@ -511,6 +533,20 @@ pub fn run(cfg: &Cfg) -> Report {
         for n in ["tC", "tLC"] {
           run_out(&defs, Some(n), Sexp::tagged("named", vec![Sexp::str(n)]), &v, &mut out_cases, &mut rep);
         }
+      }
+      // a decision service with two output decisions: its result, the context {P: …, Q: 1}, against a component
+      // type naming both, a collection of it, a component type naming one and a third, and a simple type
+      let defs2: Defs = vec![
+        ("tPQ".into(), Item::Comp(vec![("P".into(), Item::Simple(t, Av::None)), ("Q".into(), Item::Simple(1, Av::None))], Av::None)),
+        ("tLPQ".into(), Item::CollComp(vec![("P".into(), Item::Simple(t, Av::None)), ("Q".into(), Item::Simple(1, Av::None))], Av::None)),
+        ("tPR".into(), Item::Comp(vec![("P".into(), Item::Simple(t, Av::None)), ("R".into(), Item::Simple(0, Av::None))], Av::None)),
+        ("tS".into(), Item::Simple(t, Av::None)),
+      ];
+      for v in [l[0].to_string(), format!("[{}]", l[0]), "null".to_string(), lits((t + 1) % 8)[0].to_string(), "{}".to_string()] {
+        for n in ["tPQ", "tLPQ", "tPR", "tS"] {
+          run_out_kind("service2", &defs2, Some(n), Sexp::tagged("named", vec![Sexp::str(n)]), &v, &mut out_cases, &mut rep);
+        }
+        run_out_kind("service2", &defs2, None, Sexp::atom("none"), &v, &mut out_cases, &mut rep);
       }
     }
     for v in value_kinds() {
